@@ -54,6 +54,8 @@ type naRecord struct {
 	PlainErr string          `json:"plainErr"`
 	Plain    rt.Res          `json:"plain"`
 	Full     rt.Res          `json:"full"`
+	Again    naRes           `json:"again"`
+	AgainErr string          `json:"againErr"`
 }
 
 func idx(pool []string, s string) int {
@@ -168,13 +170,21 @@ func nyctalertsDriver(args []string) (*Summary, error) {
 				}
 			}()
 			b := rt.Bytes(msg, order)
-			raw, err := gtfs.ParseRealtime(b, &gtfs.ParseRealtimeOptions{Extension: nyctalerts.Extension(toOpts(*c.Opts))})
+			ext := nyctalerts.Extension(toOpts(*c.Opts))
+			raw, err := gtfs.ParseRealtime(b, &gtfs.ParseRealtimeOptions{Extension: ext})
 			if err != nil {
 				rec.Err = "error: " + err.Error()
 				return
 			}
 			rec.Full = rt.Projector{Zone: time.UTC}.Project(raw)
 			rec.Res = projectNA(msg, rec.Full, raw)
+			// the same extension value used for the next message: groups are per message
+			raw2, err := gtfs.ParseRealtime(rt.Bytes(msg, order), &gtfs.ParseRealtimeOptions{Extension: ext})
+			if err != nil {
+				rec.AgainErr = "error: " + err.Error()
+				return
+			}
+			rec.Again = projectNA(msg, rt.Projector{Zone: time.UTC}.Project(raw2), raw2)
 		}()
 		plain := rt.ParseOnce(msg, order, "nil", nil)
 		rec.PlainErr, rec.Plain = plain.Err, plain.Res
